@@ -392,6 +392,28 @@ theorem count_bounds (r : ℚ) (hr : 0 < r) (R : ℕ) :
           apply Int.floor_le_floor; push_cast; nlinarith
         rw [Int.floor_add_one] at this; omega
 
+/-- for `r ≤ 1` the first alternative of `count_bounds` always holds: exhaustion is reported exactly
+    before output number `⌈(R+1)/r⌉` -/
+theorem exh_at_ceil_of_le_one (r : ℚ) (hr : 0 < r) (hr1 : r ≤ 1) (R : ℕ) : Exh r R ⌈((R : ℚ) + 1) / r⌉₊ := by
+  have hc1 : ((R : ℚ) + 1) / r ≤ (⌈((R : ℚ) + 1) / r⌉₊ : ℚ) := Nat.le_ceil _
+  have hc1' : (R : ℚ) + 1 ≤ (⌈((R : ℚ) + 1) / r⌉₊ : ℚ) * r := by rwa [div_le_iff₀ hr] at hc1
+  have hR : (0 : ℚ) ≤ R := Nat.cast_nonneg R
+  have hcpos : 1 ≤ ⌈((R : ℚ) + 1) / r⌉₊ := by
+    apply Nat.one_le_iff_ne_zero.mpr; intro h0
+    rw [h0] at hc1'; simp at hc1'; linarith
+  have hlt : (⌈((R : ℚ) + 1) / r⌉₊ : ℚ) < ((R : ℚ) + 1) / r + 1 :=
+    Nat.ceil_lt_add_one (show (0:ℚ) ≤ ((R : ℚ) + 1) / r by positivity)
+  have hc2 : ((⌈((R : ℚ) + 1) / r⌉₊ : ℚ) - 1) * r < R + 1 := by
+    have : (⌈((R : ℚ) + 1) / r⌉₊ : ℚ) - 1 < ((R : ℚ) + 1) / r := by linarith
+    rwa [lt_div_iff₀ hr] at this
+  refine ⟨hcpos, ?_, ?_⟩
+  · apply Int.le_floor.mpr; push_cast; nlinarith
+  · have h1 : ⌊((⌈((R : ℚ) + 1) / r⌉₊ : ℚ) - 1) * r⌋ < (R : ℤ) + 1 := by
+      apply Int.floor_lt.mpr; push_cast; exact hc2
+    have h2 : (R : ℤ) + 1 ≤ ⌊(⌈((R : ℚ) + 1) / r⌉₊ : ℚ) * r⌋ := by
+      apply Int.le_floor.mpr; push_cast; exact hc1'
+    omega
+
 /-! ### the two interpolators -/
 
 /-- `Floor` primed with source frame `q` and then fed frames `q+1 … q+m` holds frame `q+m` -/
